@@ -192,15 +192,31 @@ func c11Run(c *vk.Ctx, i int) {
 	w = ww
 	wmu.Unlock()
 	// a second writer on the locked directory must be refused and must not harm the first
-	if _, err2 := bluge.OpenWriter(fsConfig(dir, fs, nil)); err2 == nil {
-		c.Violate("second-writer-not-refused", fmt.Sprintf("config %s: a second OpenWriter on a locked directory succeeded", cfgName), nil)
-	} else {
-		c.Event("second_writer_refused", 1)
+	// ... and a refusal must leave the lock in force: every further attempt is refused as well, at any
+	// moment of the first writer's life (a refused open that cleans up "its" lock file would admit the next)
+	probeSecond := func(stage string) {
+		for attempt := 1; attempt <= 3; attempt++ {
+			w2, err2 := bluge.OpenWriter(fsConfig(dir, fs, nil))
+			if err2 == nil {
+				key := "second-writer-not-refused"
+				if attempt > 1 {
+					key = "refused-writer-harms-lock"
+				}
+				c.Violate(key, fmt.Sprintf("config %s, %s: OpenWriter attempt %d on a directory whose writer is open succeeded (attempts before it were refused)", cfgName, stage, attempt), nil)
+				_ = w2.Close()
+				return
+			}
+			c.Event("second_writer_refused", 1)
+		}
 	}
+	probeSecond("right after open")
 	batches := genHistory(r, c.Pick(30, 60), 6, "v")
 	cur := &model.Index{}
 	var held []*bluge.Reader
 	for bi, b := range batches {
+		if bi == len(batches)/2 || bi == len(batches)-1 {
+			probeSecond(fmt.Sprintf("before batch %d", bi))
+		}
 		if err := ww.Batch(b.ToBluge()); err != nil {
 			c.Violate("batch-error-after-refused-second-writer", fmt.Sprintf("config %s: batch %d: %v", cfgName, bi, err), nil)
 		}
